@@ -29,7 +29,7 @@ SENT = {'i8': 90, 'i16': 23130, 'i32': 1515870810, 'i64': 6510615555426900570, '
         'ostr': hs('~sentinel~'), 'oi64': 77, 'uptr': 1515870810, 'atom': 1515870810, 'tpms': {'tp': 5555},
         'v_i32': [7, 8, 9], 'v_i64': [7, 8, 9], 'v_u16': [7, 8, 9], 'v_f32': [{'f32': f32hex(1.5)}], 'v_f64': [{'f64': f64hex(1.5)}], 'v_bool': [True],
         'v_str': [hs('~a~'), hs('~b~')], 'vv_i32': [[7], [8, 9]], 'l_i64': [7, 8, 9], 'd_u16': [7, 8, 9],
-        'tup': [-7, hs('~t~'), {'f64': f64hex(-7.5)}], 'm_s_i32': {'m': [[hs('~k~'), 7]]}}
+        'tup': [-7, hs('~t~'), {'f64': f64hex(-7.5)}], 'm_s_i32': {'m': [[hs('~k~'), 7]]}, 's_i32': [7, 8, 9], 'ms_i32': [7, 7]}
 ZERO = {'f32': {'f32': '00000000'}, 'f64': {'f64': '0' * 16}, 'bool': False, 'str': hs(''), 'wstr': hs('')}
 NULLABLE = ('ostr', 'oi64', 'uptr')
 
@@ -71,6 +71,11 @@ def conforming(t, rng, arch):
         n = rng.randrange(1 if arch == 'xml' else 0, 7)
         items = [conforming(SEQS[t], rng, arch) for _ in range(n)]
         return ('a', [i for i, _ in items]), [d for _, d in items]
+    if t in ('s_i32', 'ms_i32'):
+        n = rng.randrange(1 if arch == 'xml' else 0, 7)
+        items = [conforming('i32', rng, arch) for _ in range(n)]
+        vals = [d for _, d in items]
+        return ('a', [i for i, _ in items]), (sorted(set(vals)) if t == 's_i32' else sorted(vals))
     if t == 'vv_i32':
         n = rng.randrange(1 if arch == 'xml' else 0, 4)
         rows = []
@@ -150,7 +155,7 @@ class Field:
 
 
 def all_types(arch):
-    return SCALARS if arch == 'csv' else SCALARS + list(SEQS) + ['vv_i32', 'tup', 'm_s_i32']
+    return SCALARS if arch == 'csv' else SCALARS + list(SEQS) + ['vv_i32', 'tup', 'm_s_i32', 's_i32', 'ms_i32']
 
 
 def gen_field(key, rng, arch, offence_rate, classes, t=None):
@@ -186,6 +191,20 @@ def gen_field(key, rng, arch, offence_rate, classes, t=None):
                     descs[i] = prior if t != 'v_bool' else ANY
                     f.offences.append(off[1])
         f.item, f.value = ('a', items), descs
+    elif t in ('s_i32', 'ms_i32'):
+        # sets: an offending element is reported as not loaded and leaves a value-initialised element (like the slot of a vector); every other element is kept
+        items = list(item[1])
+        keep = []
+        for i in range(len(items)):
+            if rng.random() < 0.4:
+                off = offence('i32', rng, arch, classes)
+                if off:
+                    items[i] = off[0]
+                    f.offences.append(off[1])
+                    keep.append(0)
+                    continue
+            keep.append(items[i][1])
+        f.item, f.value = ('a', items), (sorted(set(keep)) if t == 's_i32' else sorted(keep))
     elif t == 'vv_i32':
         rows, descs = [list(r[1]) for r in item[1]], [list(d) for d in desc]
         out_rows = []
@@ -434,7 +453,7 @@ def pick_validators(f_type, tag, f, rng, cfg):
             elif f_type in ('f32', 'f64'):
                 vals.append('G%d~%d' % (rng.choice([-1000, -1, 0]), rng.choice([0, 1, 1000])))
         elif k in ('N', 'X'):
-            if f_type in ('str', 'wstr') or f_type in SEQS or f_type == 'vv_i32':
+            if f_type in ('str', 'wstr') or f_type in SEQS or f_type in ('vv_i32', 's_i32', 'ms_i32'):
                 n = size_of(f, f.value) if (f is not None and f.loaded) else 2
                 vals.append('%s%d' % (k, max(0, n + rng.choice([-1, 0, 0, 1]))))
         elif k == 'E':
